@@ -17,7 +17,10 @@ from tqdm import tqdm
 
 from .base import BaseNestedSampler
 from .. import config
-from ..livepoint import empty_structured_array
+from ..livepoint import (
+    add_extra_parameters_to_live_points,
+    empty_structured_array,
+)
 from ..plot import plot_indices, plot_trace, nessai_style
 from ..evidence import _NSIntegralState
 from ..proposal.utils import (
@@ -1380,6 +1383,19 @@ class NestedSampler(BaseNestedSampler):
         obj = super(NestedSampler, cls).resume_from_pickled_sampler(
             sampler, model, **kwargs
         )
+        # The live points may have been created whilst extra (non-sampling)
+        # live point parameters were defined, e.g. if an importance nested
+        # sampler was used in the same process. New samples must have the
+        # same fields.
+        if getattr(obj, "live_points", None) is not None:
+            extra = [
+                n
+                for n in obj.live_points.dtype.names
+                if n not in model.names
+                and n not in config.livepoints.non_sampling_parameters
+            ]
+            if extra:
+                add_extra_parameters_to_live_points(extra)
         obj._uninformed_proposal.resume(model)
         if flow_config is None:
             flow_config = {}
